@@ -10,3 +10,4 @@ open Just.Props.C15
 #print axioms modules_isolated
 #print axioms import_contributes
 #print axioms loader_terminates
+#print axioms path_spelling_irrelevant
